@@ -120,7 +120,7 @@ PROPS = {
         "assumptions": ["informer caches are monotone per kind", "run objects are removed by others only after their Trial completed", "algorithm service returns fresh names"],
     },
     "C16": {
-        "prop_files": ['Katib/Props/C16.lean', 'Katib/Props/C16World.lean', 'Katib/Props/C16Succeeded.lean', 'Katib/Props/C16Quiescent.lean', 'Katib/Props/C07Guards.lean', 'Katib/Props/C03Guards.lean'],
+        "prop_files": ['Katib/Props/C16.lean', 'Katib/Props/C16World.lean', 'Katib/Props/C16Succeeded.lean', 'Katib/Props/C16Quiescent.lean', 'Katib/Props/C07Guards.lean', 'Katib/Props/C03Guards.lean', 'Katib/Props/C08Guards.lean'],
         "streams": [('SIM', {'quick': 240, 'thorough': 8000})],
         "rule": "seeded random schedules of the three real reconcilers on the fake client (1-2 experiments, optionally equally named in two namespaces; maxTrialCount 1-4/unset, parallel 1-3, maxFailed, goal, three resume policies, early stopping, retain, push collector), ops = reconciles with per-kind monotone lagging views (random lag, stalled informers, one kind's cache held for several reconciles - also exactly at the Experiment copy from before its verdict), write-fault masks, abort points, algorithm reply faults (short/long/error, rules RPC error), job outcomes, metric arrival (also after the verdict), early stop, deployment ready, external removal of a completed trial's run object, a run-object-creating reconcile cut off before its status write with the job finishing before the retry; scripted RPC failures cycle through gRPC status codes; then fault-free settling to quiescence, a quiescence probe, optionally one or two budget raises each with a second settling, and optionally a teardown in which Trials are deleted and reconciled while the database call or the finalizer write fails; every op's write log and the whole store are compared with the Lean model; a case = one schedule; distinct = distinct op sequence",
         "trusted": ["controller-runtime fake client stands in for the kube-apiserver (rv conflicts, status subresource, AlreadyExists)",
@@ -178,7 +178,7 @@ PROPS = {
         "assumptions": ["the four allow-listed spec parts (metric strategies, maxFailedTrialCount, resumePolicy, trial template / collector) are consumed controller-side"],
     },
     "C17": {
-        "prop_files": ["Katib/Props/C17.lean"],
+        "prop_files": ["Katib/Props/C17.lean", 'Katib/Props/C08Guards.lean'],
         "streams": [("C17", {"quick": 4000, "thorough": 200000}), ("SIM", {"quick": 160, "thorough": 3000})],
         "rule": "suggestions (names, namespaces, labels incl. the reserved katib label keys, three resume policies, early stopping on/off/empty name) x generated katib-config "
                 "suggestion entries (container name, 0-2 extra ports incl. the reserved name/number, custom serviceAccountName, volume mounts incl. suggestion-volume, mount path) "
